@@ -227,7 +227,7 @@ DurLawsClause(m, ev) ==
 
 \* Beyond the listed properties: the remaining Duration operations (//, abs, to_weeks, bool) against the stored-form
 \* model of ImplDur.tla; integer components only.  All clauses are ext: (reported, never an alarm).
-ID == INSTANCE ImplDur WITH EqIgnoresMonthSign <- FALSE, AddDropsMonthsOnMixedSigns <- FALSE
+ID == INSTANCE ImplDur WITH EqIgnoresMonthSign <- FALSE, AddDropsMonthsOnMixedSigns <- FALSE, StdDropsDayCarry <- FALSE
 DurExtClause(ev) ==
   IF ~ev.ok THEN "ext:raised-" \o ev.cls
   \* (C11 proper, not ext: the empty duration is the identity of a value obtained from to_weeks() as of any other Duration)
